@@ -107,7 +107,7 @@ class Totality(object):
                 ctx.finding("F9-encoder-recursion-depth", payload, detail + " (parenthesis depth %d)" % paren_depth(x))
                 return
         if self.which == "encoder":
-            bad = [m for m in MON.match_log if m["verdict"] != "ok"]
+            bad = [m for m in MON.match_log if m["verdict"] in ("false_none", "invalid_matching")]
             if bad and any(not m["bipartite"] for m in bad):
                 ctx.finding("F3-matching-nonbipartite", payload, detail + " (M4: matching routine wrong on a non-bipartite graph in this call)")
                 return
